@@ -164,15 +164,25 @@ func possibleMarker(o *Outcome, key string, before *UpRec, fromT int64, hfp int)
 		}
 		// a request that took the fetching role and failed before reaching the origin
 		// (no location / no healthy upstream) leaves a marker as well
-		if r.Res == nil || r.Res.Aborted || (r.Res.Status >= 500 && r.Res.Header.Get("X-Sim-Echo") == "") {
-			return true
-		}
-		// so does one whose client went away while it held the role (answered 400 by pike)
-		if r.Cancelled && r.Res.Header.Get("X-Sim-Echo") == "" {
+		if endedFetchWithoutOrigin(r) {
 			return true
 		}
 	}
 	return false
+}
+
+// endedFetchWithoutOrigin: a request without an upstream contact of its own that may have
+// held the fetching role and given it up: it never returned, panicked, was answered by pike
+// itself with a 5xx (no location / no healthy upstream), or its client went away (pike
+// answers 400). Every such end leaves a hit-for-pass marker.
+func endedFetchWithoutOrigin(r *ReqRec) bool {
+	if r.Res == nil || r.Res.Aborted {
+		return true
+	}
+	if r.Res.Header.Get("X-Sim-Echo") != "" {
+		return false
+	}
+	return r.Res.Status >= 500 || r.Cancelled
 }
 
 // surelyFetcher: the requester of u found the key in unknown state and took the
